@@ -6,7 +6,7 @@
     /\ (forall x, wfd c x = true -> fits c x = true -> esize c x = len (enc c x))
     /\ (forall bs x r r', dec c bs = Value x r -> fits c x = true -> dec c (enc c x ++ r') = Value x r'). *)
 From Coq Require Import ZArith List.
-From VB Require Import Gen.Consts Serde.StreamDefs Serde.CodecSpec Serde.StreamProofs Serde.EntityDefs Serde.Theorems Serde.FitsProofs Serde.StoredDefs Serde.StoredTheorems Serde.FitsMerkle Serde.Refuted Serde.Ids Serde.Memo.
+From VB Require Import Gen.Consts Serde.StreamDefs Serde.CodecSpec Serde.StreamProofs Serde.EntityDefs Serde.Theorems Serde.FitsProofs Serde.StoredDefs Serde.StoredTheorems Serde.FitsMerkle Serde.Refuted Serde.Ids Serde.Memo Serde.Counting Mempool.CountDefs Mempool.CountProofs.
 Local Open Scope Z_scope.
 
 Theorem C11_single_be_int64 : c11_ok c_single_be64.
@@ -194,3 +194,31 @@ Theorem C11_id_memo_VbkBlock : forall progpow ops1 ops2 (x1 x2 : VbkBlock) h1 h2
   enc c_vbkblock_raw c1 = enc c_vbkblock_raw c2 -> h1 = h2.
 Proof. exact (fun progpow => memo_hash_of_content VbkBlock (enc c_vbkblock_raw) progpow). Qed.
 Print Assumptions C11_id_memo_VbkBlock.
+
+(** CountingContext (property C12's abstract container arithmetic, coq/Mempool/CountDefs.v) is tied to the PopData
+    codec: [prefix] is singleBEValueSize, and [estimate] over the elements' estimateSize is the estimateSize of the
+    PopData — each kind's length prefix priced from the counter of that kind; with codec_ok of PopData the running
+    figure of CountingContext is the number of bytes toVbkEncoding() writes. *)
+Theorem C11_counting_prefix_is_singleBEValueSize : forall n, (n < 2 ^ 63)%N ->
+  single_be_size (Z.of_N n) = Z.of_N (CountDefs.prefix n).
+Proof. exact prefix_is_single_be_size. Qed.
+Print Assumptions C11_counting_prefix_is_singleBEValueSize.
+
+Theorem C11_counting_estimate_is_popdata_esize : forall addr_norm p sv st sa,
+  List.map Z.of_N sv = List.map (esize c_vbkblock) (pop_context p) ->
+  List.map Z.of_N st = List.map (esize (c_vtb addr_norm)) (pop_vtbs p) ->
+  List.map Z.of_N sa = List.map (esize (c_atv addr_norm)) (pop_atvs p) ->
+  (CountDefs.len sv < 2 ^ 63)%N -> (CountDefs.len st < 2 ^ 63)%N -> (CountDefs.len sa < 2 ^ 63)%N ->
+  Z.of_N (CountDefs.estimate sv st sa) = esize (c_popdata addr_norm) p.
+Proof. exact counting_estimate_is_popdata_esize. Qed.
+Print Assumptions C11_counting_estimate_is_popdata_esize.
+
+Theorem C11_counting_figure_is_encoded_size : forall addr_norm, addr_norm_sound addr_norm -> forall p c r,
+  agrees c r -> wfd (c_popdata addr_norm) p = true -> StreamDefs.fits (c_popdata addr_norm) p = true ->
+  List.map Z.of_N (k_vbk r) = List.map (esize c_vbkblock) (pop_context p) ->
+  List.map Z.of_N (k_vtb r) = List.map (esize (c_vtb addr_norm)) (pop_vtbs p) ->
+  List.map Z.of_N (k_atv r) = List.map (esize (c_atv addr_norm)) (pop_atvs p) ->
+  (CountDefs.len (k_vbk r) < 2 ^ 63)%N -> (CountDefs.len (k_vtb r) < 2 ^ 63)%N -> (CountDefs.len (k_atv r) < 2 ^ 63)%N ->
+  Z.of_N (popsize c) = StreamDefs.len (enc (c_popdata addr_norm) p).
+Proof. exact counting_figure_is_encoded_size. Qed.
+Print Assumptions C11_counting_figure_is_encoded_size.
